@@ -1058,6 +1058,16 @@ class C17Engine(Engine):
                         out.counters[f"probe:organic-raise({label}:{exc})"] += 1  # calls that claim nothing: watch the share per call form
                     if changed:
                         out.counters["probe:raising-call-modified-arguments"] += 1
+                        # the statement is about the arguments after the operation, however it ended: a call that raises
+                        # (on its own or because a dependency failed under it) must not leave them modified either
+                        for n, role, path in changed:
+                            if form == "objcall" and role == "obj":
+                                continue
+                            top = path.split("[")[0].split(".")[1] if path.startswith(".") else path.split("[")[0] or "item"
+                            out.violate("C17.A", f"{label}:{role}:{top}:call-raised", step, operand=n, path=path,
+                                        before=before[n].get(path), after=after[n].get(path), op=op, exc=exc)
+                    if rng_before[0] != rng_after[0] or rng_before[1] != rng_after[1]:
+                        out.violate("C17.G", f"{label}:global-rng:call-raised", step, op=op, exc=exc)
                     if form in ("mul", "rmul") and self._in_E_domain(pool, op) and not (dep and dep[3].fired):
                         out.violate("C17.E", f"{form}:{type(op['b']).__name__}-scalar:raises-{exc}", step, op=op,
                                     dtype=str(pool[op['a']].img.dtype))
